@@ -25,7 +25,7 @@ class AnalysisError(Exception):
 
 
 class Module:
-    def __init__(self, name: str, path: Path, src: str):
+    def __init__(self, name: str, path: Path, src: str, foreign=None):
         self.name = name
         self.path = path
         self.src = src
@@ -41,7 +41,9 @@ class Module:
             _REF = load_ref()
         if not os.environ.get("MOKAPOT_NO_INLINE") and _REF:
             from .inline import inline_unknown_helpers
-            self.inlined = inline_unknown_helpers(self.tree, name, _REF)
+            self.inlined = inline_unknown_helpers(
+                self.tree, name, _REF, foreign=foreign,
+                is_pkg=path.name == "__init__.py")
         if not os.environ.get("MOKAPOT_NO_CANON"):
             from .canon import canonicalise
             self.canon = canonicalise(self.tree)
@@ -147,15 +149,31 @@ class Program:
         pkgdir = self.root / PKG
         if not pkgdir.is_dir():
             raise AnalysisError(f"package directory {pkgdir} not found")
+        files = []
         for path in sorted(pkgdir.rglob("*.py")):
             rel = path.relative_to(self.root).with_suffix("")
             parts = list(rel.parts)
             if parts[-1] == "__init__":
                 parts = parts[:-1]
-            name = ".".join(parts)
+            files.append((".".join(parts), path))
+        # helpers that moved to another module of the package are inlined
+        # across modules: first pass collects the candidates
+        foreign = None
+        if not os.environ.get("MOKAPOT_NO_INLINE"):
+            try:
+                from .inline import foreign_table
+                from .refnames import load_ref
+                srcs = []
+                for name, path in files:
+                    srcs.append((name, path.name == "__init__.py",
+                                 ast.parse(path.read_text())))
+                foreign = foreign_table(srcs, load_ref() or {})
+            except SyntaxError:
+                foreign = None
+        for name, path in files:
             try:
                 src = path.read_text()
-                mod = Module(name, path, src)
+                mod = Module(name, path, src, foreign=foreign)
             except SyntaxError as e:
                 raise AnalysisError(f"cannot parse {path}: {e}")
             self.modules[name] = mod
